@@ -23,6 +23,23 @@ SINC2_HALF = 0.442946470689452     # sinc(x)^2 = 1/2 at x = 0.4429...
 # --------------------------------------------------------------------------------------
 # strategies
 # --------------------------------------------------------------------------------------
+# scalar components arrive as Python numbers or as numpy scalars of any width (a level read from float32 data)
+NP_FLOAT = st.sampled_from([False, False, True, 'f32'])
+
+
+def scalar(spec, raw):
+    """The object handed to the library for a scalar component, in the numeric type the description names."""
+    n = spec.get('np', False)
+    if spec['kind'] == 'int':
+        return {False: int, 'i64': np.int64, 'i32': np.int32}[n](int(raw))
+    return {False: float, True: np.float64, 'f32': np.float32}[n](raw)
+
+
+def scalar_value(spec, raw):
+    """... and its value as a Python float (float32 rounds)."""
+    return float(scalar(spec, raw))
+
+
 def path_strategy(kinds=None):
     u = st.one_of(gen.finite(-0.5, 1.5), gen.finite(0.1, 0.9))          # start, in units of the band
     drift = st.one_of(st.just(0.0), gen.finite(-4, 4), gen.finite(-1, 1))   # channels per step
@@ -42,8 +59,8 @@ def path_strategy(kinds=None):
         'array': st.fixed_dictionaries({'kind': st.just('array'), 'u': u, 'drift': drift,
                                         'seed': st.integers(0, 10 ** 6), 'jitter': gen.finite(0, 2),
                                         'as_list': st.booleans()}),
-        'float': st.fixed_dictionaries({'kind': st.just('float'), 'u': u, 'np': st.booleans()}),      # float or numpy.float64
-        'int': st.fixed_dictionaries({'kind': st.just('int'), 'u': u}),
+        'float': st.fixed_dictionaries({'kind': st.just('float'), 'u': u, 'np': NP_FLOAT}),      # float, numpy.float64 or numpy.float32
+        'int': st.fixed_dictionaries({'kind': st.just('int'), 'u': u, 'np': st.sampled_from([False, False, 'i64'])}),
     }
     kinds = kinds or list(all_)
     return st.one_of([all_[k] for k in kinds])
@@ -66,8 +83,8 @@ def t_strategy(kinds=None):
                                          'level': level, 'a': gen.finite(0, 0.9), 'b': gen.finite(0.1, 3)}),
         'array': st.fixed_dictionaries({'kind': st.just('array'), 'level': level, 'seed': st.integers(0, 10 ** 6),
                                         'as_list': st.booleans()}),
-        'float': st.fixed_dictionaries({'kind': st.just('float'), 'level': level, 'np': st.booleans()}),
-        'int': st.fixed_dictionaries({'kind': st.just('int'), 'level': st.integers(1, 50)}),
+        'float': st.fixed_dictionaries({'kind': st.just('float'), 'level': level, 'np': NP_FLOAT}),
+        'int': st.fixed_dictionaries({'kind': st.just('int'), 'level': st.integers(1, 50), 'np': st.sampled_from([False, False, 'i64', 'i32'])}),
     }
     kinds = kinds or list(all_)
     return st.one_of([all_[k] for k in kinds])
@@ -95,8 +112,8 @@ def bp_strategy():
         st.fixed_dictionaries({'kind': st.just('constant'), 'level': gen.finite(0.1, 1.0)}),
         st.fixed_dictionaries({'kind': st.just('custom'), 'a': gen.finite(-0.9, 2)}),
         st.fixed_dictionaries({'kind': st.just('array'), 'a': gen.finite(-0.9, 2), 'as_list': st.booleans()}),
-        st.fixed_dictionaries({'kind': st.just('float'), 'level': gen.finite(0.1, 1.0), 'np': st.booleans()}),
-        st.fixed_dictionaries({'kind': st.just('int'), 'level': st.integers(1, 3)}),
+        st.fixed_dictionaries({'kind': st.just('float'), 'level': gen.finite(0.1, 1.0), 'np': NP_FLOAT}),
+        st.fixed_dictionaries({'kind': st.just('int'), 'level': st.integers(1, 3), 'np': st.sampled_from([False, False, 'i64', 'i32'])}),
     )
 
 
@@ -253,10 +270,8 @@ def stg_path(stg, ax, p, smearing):
     if k == 'array':
         a = path_array(ax, p, ax.T + 1 if smearing else ax.T)
         return a.tolist() if p['as_list'] else a
-    if k == 'float':
-        return np.float64(f0) if p.get('np') else float(f0)
-    if k == 'int':
-        return int(f0)
+    if k in ('float', 'int'):
+        return scalar(p, f0)
     raise ValueError(k)
 
 
@@ -319,10 +334,8 @@ def stg_t(stg, ax, t):
     if k == 'array':
         a = t_array(ax, t)
         return a.tolist() if t['as_list'] else a
-    if k == 'float':
-        return np.float64(t['level']) if t.get('np') else float(t['level'])
-    if k == 'int':
-        return int(t['level'])
+    if k in ('float', 'int'):
+        return scalar(t, t['level'])
     raise ValueError(k)
 
 
@@ -393,7 +406,9 @@ def bp_callable(ax, b):
     k = b['kind']
     if k in ('none',):
         return lambda x: np.ones(np.shape(x))
-    if k in ('constant', 'float', 'int'):
+    if k in ('float', 'int'):
+        return lambda x: np.full(np.shape(x), scalar_value(b, b['level']))
+    if k == 'constant':
         return lambda x: np.full(np.shape(x), float(b['level']))
     if k in ('custom', 'array'):
         return lambda x: 1.0 + b['a'] * (np.asarray(x) - ax.fmin) / ax.span
@@ -408,10 +423,8 @@ def stg_bp(stg, ax, b, cols=None):
         return stg.constant_bp_profile(level=b['level'])
     if k == 'custom':
         return bp_callable(ax, b)
-    if k == 'float':
-        return np.float64(b['level']) if b.get('np') else float(b['level'])
-    if k == 'int':
-        return int(b['level'])
+    if k in ('float', 'int'):
+        return scalar(b, b['level'])
     if k == 'array':
         fs = ax.fs if cols is None else ax.fs[cols[0]:cols[1]]
         a = bp_callable(ax, b)(fs)
@@ -463,7 +476,7 @@ def reference(stg, ax, sig, opts, ts_eval=None, cache=None, ax_fn=None):
     t = sig['t']
     tk = t['kind']
     if tk in ('float', 'int'):
-        tp = np.full(T, float(t['level']))
+        tp = np.full(T, scalar_value(t, t['level']))
     elif tk == 'array':
         tp = t_array(ax, t)
     else:
@@ -486,7 +499,7 @@ def reference(stg, ax, sig, opts, ts_eval=None, cache=None, ax_fn=None):
     T_eff = T + 1 if smear else T
     if pk in ('float', 'int'):
         f0 = ax.f_of(p['u'])
-        pc = np.full(T_eff, float(f0) if pk == 'float' else float(int(f0)))
+        pc = np.full(T_eff, scalar_value(p, f0))
     elif pk == 'array':
         pc = path_array(ax, p, T_eff)
     else:
